@@ -160,4 +160,14 @@ PROPS = {
                "cases = (packets, attachments, earlier messages, survivor, observer, concurrent, crash index k) enumerated; thorough adds generated combinations; non-trivial = the process died strictly between the first packet and the last follow-up of a multi-packet message; distinct = distinct canonical JSON",
                exhaustive="every crash index k = 0..packets+8 (covers every intercepted call of the send and 'after the last call') for the listed shapes x survivor x observer"),
     ),
+    "C15": dict(
+        jobs=lambda tier: [dict(build=b, params=dict({"sndbuf": "4096"} if sb else {}, cases="300" if tier == "quick" else "20000"), shards=4 if tier == "quick" else 8)
+                           for b, sb in (("os", 4096), ("os", 0), ("memfd", 4096), ("inproc", 4096))],
+        meta=M("exploration",
+               "enumerated attachment counts 0..300 x data-part shapes x mixtures (plus generated mixtures, proptest) with accept/refuse oracle and identity probes",
+               "Every attachment count 0..300 is tried with five data-part shapes (empty, small, exactly one packet, one byte over, multi-packet), an all-sender and a mixed sender/receiver/region attachment list, through ipc:: values and through platform::OsIpcSender::send vectors. If send refuses, a follow-up plain message must arrive intact and nothing else; if send accepts, the value must arrive with all attachments, each probed for identity and position, followed by the follow-up; the receiver must never panic, abort or hang; the descriptor count returns to its baseline.",
+               "The limit itself (64 descriptors) is not assumed by the oracle: accept-or-refuse is observed, then the corresponding obligations are checked.",
+               "cases = (count, mixture, data shape, API level); counts 0..300 enumerated for two mixtures x five data shapes + platform API, further mixtures generated; non-trivial = count within +/-3 of 63/64 or of the kernel limit 253, or > 64; distinct = distinct (build, params, canonical JSON)",
+               exhaustive="attachment counts 0..300 x 5 data shapes x 2 mixtures (ipc API) and x 1 shape cycle (platform API), per build/configuration"),
+    ),
 }
